@@ -37,6 +37,10 @@ func rulesC04(c *Ctx) {
 	}
 	c01PostExecute(c)
 	lockDiscipline(c, "circuitbreaker")
+	// "every admitted trial gives its permit back … however the execution ends": the overriding OnSuccess / OnFailure run
+	// the user's listener outside the breaker's mutex (a listener that reads the breaker's state would otherwise
+	// deadlock, and the trial's permit is never returned)
+	c16Overrides(c)
 }
 
 func rulesC03(c *Ctx) {
@@ -1633,6 +1637,12 @@ func c03Metrics(c *Ctx) {
 			c.Ok(c.fn(fn), c.P.FuncPos(fn), want)
 		}
 		rd := c.P.Func("circuitbreaker.(*" + typ + ").remainingDelay")
+		if rd == nil {
+			// promoted from an embedded base the states share
+			if n := c.P.NamedType("circuitbreaker", typ); n != nil {
+				rd = c.P.MethodOf(n, "remainingDelay")
+			}
+		}
 		if rd == nil {
 			c.Unresolved("circuitbreaker.(*"+typ+").remainingDelay", "not found")
 			continue
